@@ -50,7 +50,9 @@ inductive GStep
   | loadDeps (isProduct : Bool) | loadProds (isProduct needsParam : Bool) | call | parseDefined (raisesIfNone : Bool)
   | collectEach | raiseOnCollectFail | raiseOnDuplicate | extendTasks | modifyTasks | recreate (c : RCond) | ret (v : Bool)
 deriving Repr, DecidableEq
-inductive TStep | setDag | renewSkipMarks | renewFailMarks | setScheduler
+inductive ROutcome | fail | skipPrevFailed
+deriving Repr, DecidableEq
+inductive TStep | setDag | renewSkipMarks | renewFailMarks (roots : List ROutcome) | setScheduler
 deriving Repr, DecidableEq
 inductive XStep | appendFailReport | setShouldStop
 deriving Repr, DecidableEq
@@ -504,10 +506,21 @@ def _check_renew_fail_marks():
         raise _err(f"_skip_descendants_of_failed_tasks: loops over {_u(lp.iter)!r}")
     r = lp.target.id
     first = lp.body[0] if lp.body else None
-    ok = isinstance(first, ast.If) and _u(first.test) == f"{r}.outcome != TaskOutcome.FAIL" and len(first.body) == 1 and \
-        isinstance(first.body[0], ast.Continue) and not first.orelse
-    if not ok:
-        raise _err("_skip_descendants_of_failed_tasks: does not skip reports whose outcome is not FAIL")
+    if not (isinstance(first, ast.If) and len(first.body) == 1 and isinstance(first.body[0], ast.Continue) and not first.orelse):
+        raise _err("_skip_descendants_of_failed_tasks: does not start by passing over the other reports")
+    # which outcomes are roots: `report.outcome != TaskOutcome.FAIL` (ee6b73e) or `report.outcome not in (TaskOutcome.FAIL,
+    # TaskOutcome.SKIP_PREVIOUS_FAILED)` (501f7e1: a task skipped because of a failed ancestor passes the mark on)
+    t = first.test
+    names = {"TaskOutcome.FAIL": ("fail",), "TaskOutcome.SKIP_PREVIOUS_FAILED": ("skipPrevFailed",)}
+    roots = None
+    if isinstance(t, ast.Compare) and len(t.ops) == 1 and _u(t.left) == f"{r}.outcome":
+        if isinstance(t.ops[0], ast.NotEq) and _u(t.comparators[0]) in names:
+            roots = [names[_u(t.comparators[0])]]
+        elif isinstance(t.ops[0], ast.NotIn) and isinstance(t.comparators[0], (ast.Tuple, ast.List, ast.Set)) and \
+                all(_u(e) in names for e in t.comparators[0].elts):
+            roots = [names[_u(e)] for e in t.comparators[0].elts]
+    if not roots:
+        raise _err(f"_skip_descendants_of_failed_tasks: unrecognised selection of reports {_u(t)!r}")
     inner = [st for st in lp.body[1:] if isinstance(st, ast.For)]
     if len(inner) != 1 or len(lp.body) != 2 or _u(inner[0].iter) != f"descending_tasks({r}.task.signature, session.dag)":
         raise _err("_skip_descendants_of_failed_tasks: expected one loop over descending_tasks(report.task.signature, session.dag)")
@@ -520,6 +533,7 @@ def _check_renew_fail_marks():
     for n in ast.walk(lp):
         if isinstance(n, ast.Attribute) and isinstance(n.ctx, ast.Store):
             raise _err("_skip_descendants_of_failed_tasks: stores to an attribute")
+    return roots
 
 
 def _recreate():
@@ -570,8 +584,7 @@ def _recreate():
         # new DAG. M7 has fail marks: the interpreter adds them (`Sess.renewed`).
         if isinstance(st, ast.Expr) and _callee(st.value) == "_skip_descendants_of_failed_tasks" and \
                 [_u(a) for a in st.value.args] == ["session"] and not st.value.keywords and "session.dag" in new_dag_names:
-            _check_renew_fail_marks()
-            steps.append(("renewFailMarks",))
+            steps.append(("renewFailMarks", _check_renew_fail_marks()))
             continue
         raise _err(f"recreate_dag: unrecognised statement in try {_u(st)[:100]!r}")
     h = tr.handlers[0]
